@@ -85,6 +85,36 @@ def run(ctx):
                 pth = save_replay(ctx, f"linecol-{row['text']}-{pos}.json", {"kind": "linecol", "text": row["text"], "pos": pos, "want": list(want)})
                 ctx.violations.append((what, pth, row["text"]))
     ctx.log(f"M: LineIndex/Position line_col on every valid UTF-8 text of 0..{NM} bytes: {mpaths} paths")
+    # ---- engine M: Error::new_from_pos / new_from_span + Error::format on symbolic text, against the rendering oracle
+    import rendersym, native
+    RN = int(os.environ.get("VERIF_C10_R_N", "5" if ctx.quick else "6"))
+    prefixes = [9, 99] if ctx.quick else [8, 9, 10, 98, 99, 100, 999]
+    rjobs = rendersym.jobs(P, RN, prefixes, 1 if ctx.quick else 2)
+    rres = par.pmap(rendersym.explore_render, rjobs, NCPU)
+    rerr = [r[1] for r in rres if r[0] == "err"]
+    if rerr: raise Inconclusive("rendering exploration failed: " + rerr[0][:1500])
+    rres = [r[1] for r in rres]
+    rrows = [row for r in rres for row in r["rows"]]
+    revents = [row["event"] for row in rrows if row.get("event")]
+    rrows = [row for row in rrows if not row.get("event")]
+    native.build()
+    nat = native.run_lines("render", [rendersym.native_line(row) for row in rrows], timeout=3000) if rrows else []
+    renc = []; rvalid = 0
+    for row, rep in zip(rrows, nat):
+        pred = "PANIC" if row.get("panic") else "OK " + row.get("out", "-")
+        if (pred == "PANIC") != rep.startswith("PANIC") or (pred != "PANIC" and pred != rep):
+            renc.append({"req": rendersym.native_line(row), "pred": pred[:200], "native": rep[:200]}); continue
+        rvalid += 1
+        if row["problems"] and len(ctx.violations) < 6:
+            t = bytes.fromhex(row["text"]) if row["text"] != "-" else b""
+            where = f"offset {row['s']}" if row["e"] is None else f"span {row['s']}..{row['e']}"
+            shown = ("\n" + bytes.fromhex(row["out"]).decode(errors="replace")) if row.get("out") not in (None, "-") else ""
+            what = f"error at {where} of text {t!r} (line {row['L']}, column {row['C']}): " + "; ".join(row["problems"]) + shown
+            pth = save_replay(ctx, f"render-{row['text'][:24]}-{row['s']}-{row['e']}.json", {"kind": "render", "text": row["text"], "s": row["s"], "e": row["e"]})
+            ctx.violations.append((what, pth, row["text"]))
+    ctx.log(f"M: Error::new_from_pos/new_from_span + Error::format on texts of 0..{RN} symbolic bytes (+ newline prefixes {prefixes}): {len(rrows)} paths, {rvalid} equal to the native rendering, {len(renc)} encoder mismatches")
+    if renc and not ctx.violations: raise Inconclusive(f"ENCODER-MISMATCH (rendering) on {len(renc)} paths, e.g. {renc[0]}")
+    if revents and not ctx.violations: raise Inconclusive(f"rendering exploration events: {revents[0]}")
     if ctx.violations:
         write_evidence(ctx, "model_checking", {"states": mpaths, "transitions": mpaths, "traces_validated_against_impl": 0, "samples": [r["rows"][0] for r in mres if r["rows"]][:3]}, ["violation found by the M part; K part not run"])
         return
@@ -102,15 +132,18 @@ def run(ctx):
                               "core::str::{from_utf8, get, chars, char_indices, is_char_boundary} (compiled, no stub)"],
         "bounds": f"input: every byte string of length <= {n} that is valid UTF-8 (validity decided by the real core::str::from_utf8 inside the harness); offsets: any usize; unwinding assertions on",
         "m_line_index_paths": mpaths, "m_line_index_bound": f"every valid UTF-8 text of 0..{NM} bytes (symbolic), every char-boundary offset: LineIndex::new/line_col (behind Pair::line_col) and Position::line_col vs the newline/character count",
-        "m_functions": sorted(set(f for r in mres for f in r["fns"])),
-        "queries_discharged": sum(r["checks"] for r in results if r["status"] == "pass") + sum(r["queries"] for r in mres),
+        "m_functions": sorted(set(f for r in mres + rres for f in r["fns"])),
+        "m_rendering_paths": len(rrows), "m_rendering_equal_to_native": rvalid,
+        "m_rendering_bound": f"Error::new_from_pos at every char-boundary offset and Error::new_from_span at every ordered pair of boundary offsets of every valid UTF-8 text of 0..{RN} bytes (symbolic), plus texts of {prefixes} newlines followed by 1..{1 if ctx.quick else 2} symbolic bytes (multi-digit line numbers); CustomError message; Error::format (what Display prints) executed from MIR; oracle P1-P5 of lib/rendersym.py (multi-line spans: no panic, location and the start line:column shown)",
+        "queries_discharged": sum(r["checks"] for r in results if r["status"] == "pass") + sum(r["queries"] for r in mres + rres),
         "solver_time_s": sum((r["cbmc_s"] or 0) for r in results),
         "explanation": "states = byte strings of length <= N before the UTF-8 assumption (symbolic, not enumerated); transitions = CBMC checks discharged",
     }
     write_evidence(ctx, "model_checking", cov,
                    ["Kani/CBMC translation faithful", f"strings longer than {n} bytes are outside the claim",
                     "lines()/lines_span() 'overlap' is read as: non-empty input lines [ls,le) with ls <= span.end and le > span.start",
-                    "LineIndex, Pair::line_col, Error line/col and rendering are not covered by the K harnesses"],
+                    "LineIndex, Pair::line_col, Error line/col and rendering are covered by engine M only (not by the K harnesses); core::fmt semantics (format!) as documented",
+                    "rendering: the marker check applies to positions and to spans inside one line; for spans over several lines only P1, P2 and the start line:column are decided; errors with a path (with_path) and ParsingError messages are rendered in C09, not here"],
                    {"repo_hashes": repo_hashes(["pest/src/position.rs", "pest/src/span.rs"])})
     if mevents: inconcl.append(f"M events: {mevents[0]}")
     if inconcl:
@@ -120,6 +153,23 @@ def run(ctx):
 def replay(ctx, path):
     import json, native
     d = json.load(open(path))
+    if d.get("kind") == "render":
+        import rendersym
+        native.build()
+        rep = native.run_lines("render", [f"{d['s']} {'-' if d['e'] is None else d['e']} {d['text']}"])[0]
+        print(rep[:100])
+        text = list(bytes.fromhex(d["text"])) if d["text"] != "-" else []
+        sy = rendersym.Sy(None)
+        L, C, lb = rendersym.reference(sy, text, d["s"])
+        if rep.startswith("PANIC"): probs = [rep]
+        elif d["e"] is not None and (rendersym.reference(sy, text, d["e"])[0] != L or rendersym.reference(sy, text, d["e"])[1] == 1):
+            probs = [] if f"{L}:{C}".encode() in bytes.fromhex(rep[3:]) else [f"no row shows {L}:{C}"]
+        else:
+            probs = rendersym.check_rendering(sy, list(bytes.fromhex(rep[3:])) if rep[3:] != "-" else [], L, C, lb)
+        print("problems:", probs)
+        if probs:
+            print(f"VIOLATION property=C10 replay={path}"); return 1
+        return 0
     rep = native.run_lines("linecol", [f"{d['pos']} {d['text']}"])[0]
     print(rep, "| want", d["want"])
     if rep != f"{d['want'][0]}:{d['want'][1]} {d['want'][0]}:{d['want'][1]}":
